@@ -93,6 +93,17 @@ func (g *group) result() *kind {
 	return g.K
 }
 
+// isRet: the operation is the value of a return statement of a result function.
+func (g *group) isRet() bool { return g.Ctx == "ret" || g.Ctx == "reti" }
+
+// retType is the result type of the result function.
+func (g *group) retType() string {
+	if g.Ctx == "reti" {
+		return "interface{}"
+	}
+	return g.result().Name
+}
+
 // aKind is the kind of the variable operand a.
 func (g *group) aKind() *kind {
 	if g.Op.Grp == "shift" && g.Forms[0] != 'v' {
@@ -224,11 +235,11 @@ func (p *planner) binary() {
 		default:
 			continue
 		}
-		ctxs := []string{"as", "def", "opas", "ret", "if", "iface"}
+		ctxs := []string{"as", "def", "opas", "ret", "reti", "if", "iface"}
 		if o.Grp == "cmp" || o.Grp == "logic" {
 			// ifn, ifna: the negated operation as branch condition, alone and as
 			// left operand of && (a NaN operand makes !(a < b) differ from a >= b)
-			ctxs = []string{"as", "def", "ret", "if", "iface", "ifn", "ifna"}
+			ctxs = []string{"as", "def", "ret", "reti", "if", "iface", "ifn", "ifna"}
 		}
 		for _, k := range kinds {
 			if !o.applies(k) {
@@ -272,13 +283,13 @@ func (p *planner) shifts() {
 				continue
 			}
 			for _, f := range binForms {
-				for _, c := range []string{"as", "def", "opas", "ret", "if", "iface"} {
+				for _, c := range []string{"as", "def", "opas", "ret", "reti", "if", "iface"} {
 					if c == "opas" && f[0] != 'v' {
 						continue
 					}
 					// an untyped constant left operand takes its type from the
 					// context: int in a short declaration or interface value
-					if (f == "lv" || f == "uv") && (c == "def" || c == "iface") && k != intKind {
+					if (f == "lv" || f == "uv") && (c == "def" || c == "iface" || c == "reti") && k != intKind {
 						continue
 					}
 					switch f {
@@ -320,7 +331,7 @@ func (p *planner) unary() {
 				if !o.applies(k) {
 					continue
 				}
-				for _, c := range []string{"as", "def", "ret", "if", "iface"} {
+				for _, c := range []string{"as", "def", "ret", "reti", "if", "iface"} {
 					p.add(&group{Op: o, K: k, Forms: "v", Ctx: c, X: p.kindTab(k)})
 				}
 			}
@@ -447,7 +458,7 @@ func (p *planner) convs() {
 	}
 	pairs = append(pairs, [2]*kind{str, kBytes}, [2]*kind{kBytes, str}, [2]*kind{str, kRunes}, [2]*kind{kRunes, str})
 	for _, pr := range pairs {
-		for _, c := range []string{"as", "def", "ret", "if", "iface"} {
+		for _, c := range []string{"as", "def", "ret", "reti", "if", "iface"} {
 			if c == "if" && (pr[1] == kBytes || pr[1] == kRunes) {
 				continue
 			}
@@ -625,6 +636,9 @@ func (g *group) stmt(w *writer, l, r, ys, fn, args string) string {
 		return fmt.Sprintf("\t{\n\t\tr := %s\n\t\tr%s\n\t\t%s\n\t}\n", l, g.Op.Tok, pr(R, "r"))
 	case "ret":
 		return fmt.Sprintf("\t{\n\t\tr := %s(%s)\n\t\t%s\n\t}\n", fn, args, pr(R, "r"))
+	case "reti":
+		w.ifc = true
+		return fmt.Sprintf("\t{\n\t\ti := %s(%s)\n\t\tpIface(%s, x, %s, i)\n\t}\n", fn, args, id, ys)
 	case "iface":
 		w.ifc = true
 		return fmt.Sprintf("\t{\n\t\tvar i interface{} = %s\n\t\tpIface(%s, x, %s, i)\n\t}\n", e, id, ys)
@@ -665,11 +679,11 @@ func (g *group) emit(w *writer) {
 		bK := g.bKind()
 		fn := fmt.Sprintf("c%dr", g.N)
 		params := fmt.Sprintf("i, j int, ta []%s, tb []%s", aK.Name, bK.Name)
-		if g.Ctx == "ret" {
-			fmt.Fprintf(d, "func %s(%s) %s {\n\ta, b := ta[i], tb[j]\n\treturn %s\n}\n", fn, params, R.Name, g.expr("a", "b"))
+		if g.isRet() {
+			fmt.Fprintf(d, "func %s(%s) %s {\n\ta, b := ta[i], tb[j]\n\treturn %s\n}\n", fn, params, g.retType(), g.expr("a", "b"))
 		}
 		load := "\ta, b := ta[i], tb[j]\n"
-		if g.Ctx == "ret" {
+		if g.isRet() {
 			load = "" // the operands are used by the result function only
 		}
 		fmt.Fprintf(d, "func c%d(x, y, %s) {\n%s%s%s}\n", g.N, params, preamble("y"), load, g.stmt(w, "a", "b", "y", fn, "i, j, ta, tb"))
@@ -682,14 +696,14 @@ func (g *group) emit(w *writer) {
 	} else {
 		params := fmt.Sprintf("i int, ta []%s", aK.Name)
 		load := "\ta := ta[i]\n"
-		if g.Ctx == "ret" {
+		if g.isRet() {
 			load = ""
 		}
 		var calls []string
 		if len(g.Forms) == 1 {
 			fn := fmt.Sprintf("c%dr", g.N)
-			if g.Ctx == "ret" {
-				fmt.Fprintf(d, "func %s(%s) %s {\n\ta := ta[i]\n\treturn %s\n}\n", fn, params, R.Name, g.expr("a", ""))
+			if g.isRet() {
+				fmt.Fprintf(d, "func %s(%s) %s {\n\ta := ta[i]\n\treturn %s\n}\n", fn, params, g.retType(), g.expr("a", ""))
 			}
 			fmt.Fprintf(d, "func c%d(x, %s) {\n%s%s%s}\n", g.N, params, preamble("0"), load, g.stmt(w, "a", "", "0", fn, "i, ta"))
 			calls = append(calls, fmt.Sprintf("c%d", g.N))
@@ -711,8 +725,8 @@ func (g *group) emit(w *writer) {
 					l, r = r, l
 				}
 				fn := fmt.Sprintf("c%dr%d", g.N, j)
-				if g.Ctx == "ret" {
-					fmt.Fprintf(d, "func %s(%s) %s {\n\ta := ta[i]\n\treturn %s\n}\n", fn, params, R.Name, g.expr(l, r))
+				if g.isRet() {
+					fmt.Fprintf(d, "func %s(%s) %s {\n\ta := ta[i]\n\treturn %s\n}\n", fn, params, g.retType(), g.expr(l, r))
 				}
 				st := g.stmt(w, l, r, fmt.Sprint(j), fn, "i, ta")
 				if g.perConst() {
